@@ -2,6 +2,8 @@ package main
 
 import (
 	"fmt"
+	"os"
+	"path/filepath"
 	"sort"
 	"strings"
 
@@ -22,12 +24,12 @@ func c16(args []string) {
 	c.Assume("unconnected ports in processes outside a RunTo closure are not judged (the property states the wiring check for Run)")
 	rng := c.Rand("c16")
 	type job struct {
-		s     *spec.Spec
-		exp   *ref.Result
-		cfg   Cfg
-		kind  string
-		what  string
-		base  *spec.Spec
+		s    *spec.Spec
+		exp  *ref.Result
+		cfg  Cfg
+		kind string
+		what string
+		base *spec.Spec
 	}
 	var jobs []*job
 	ngraphs := c.Pick(12, 150)
@@ -139,6 +141,57 @@ func c16(args []string) {
 				continue
 			}
 			jobs = append(jobs, &job{s: s2, exp: exp2, cfg: cfg(), kind: "runto", what: mode + " " + strings.Join(targets, ",")})
+		}
+	}
+	// bundled components: the in-ports of components are subject to the wiring check too (the dependency port of a
+	// dependent globber, MapToTags, FileSplitter, StreamToSubStream), and a component that runs a command of its
+	// own (CommandToParams writes a marker file here) must not run it when it is outside the closure / when the
+	// workflow is refused
+	{
+		mkc := func() *spec.Spec {
+			s := &spec.Spec{Name: "compwiring", MaxTasks: 4, Sources: map[string]string{"l0.txt": "a\nb\nc\n", "l1.txt": "d\ne\n"}}
+			in, o1 := []spec.PortDecl{{Name: "in"}}, []spec.PortDecl{{Name: "out"}}
+			s.Procs = append(s.Procs, &spec.Proc{Name: "src", Kind: spec.KFileSource, Files: []string{"l0.txt", "l1.txt"}},
+				&spec.Proc{Name: "A", Kind: spec.KCmd, Cmd: spec.BuildCmd("A", in, o1, nil, nil, nil)},
+				&spec.Proc{Name: "T", Kind: spec.KMapToTags, Tags: []*spec.TagRule{{Key: "grp", Rule: "idx"}}},
+				&spec.Proc{Name: "B", Kind: spec.KCmd, Cmd: spec.BuildCmd("B", in, o1, nil, nil, nil)},
+				&spec.Proc{Name: "GL", Kind: spec.KGlobber, Files: []string{"l*.txt"}, DepIn: true},
+				&spec.Proc{Name: "G", Kind: spec.KCmd, Cmd: spec.BuildCmd("G", in, o1, nil, nil, nil)},
+				&spec.Proc{Name: "SP", Kind: spec.KSplitter, Lines: 2},
+				&spec.Proc{Name: "W", Kind: spec.KCmd, Cmd: spec.BuildCmd("W", in, o1, nil, nil, nil)},
+				&spec.Proc{Name: "CP", Kind: spec.KCmdParams, Shell: "echo ran >> ../ctp_marker.log; printf 'p1\\np2\\n'", Values: []string{"p1", "p2"}},
+				&spec.Proc{Name: "P", Kind: spec.KCmd, Cmd: spec.BuildCmd("P", nil, o1, []string{"k"}, nil, nil), Outs: []*spec.Out{{Port: "out", Pattern: "P_{p:k}.out"}}})
+			s.Conns = append(s.Conns, &spec.Conn{From: "src.out", To: "A.in"}, &spec.Conn{From: "A.out", To: "T.in"}, &spec.Conn{From: "T.out", To: "B.in"},
+				&spec.Conn{From: "A.out", To: "GL.in_dep"}, &spec.Conn{From: "GL.out", To: "G.in"},
+				&spec.Conn{From: "src.out", To: "SP.file"}, &spec.Conn{From: "SP.split_file", To: "W.in"},
+				&spec.Conn{From: "CP.param", To: "P.k", Param: true})
+			return s
+		}
+		base := mkc()
+		expb := evalRef(base, nil)
+		if expb.Err != "" {
+			c.Broken("reference cannot evaluate the component wiring graph: " + expb.Err)
+		}
+		jobs = append(jobs, &job{s: base, exp: expb, cfg: Cfg{Buf: 3, Procs: 2}, kind: "base", what: "components, all connected"})
+		for _, cut := range []string{"GL.in_dep", "T.in", "SP.file"} {
+			s2 := mkc()
+			var conns []*spec.Conn
+			for _, cn := range s2.Conns {
+				if cn.To != cut {
+					conns = append(conns, cn)
+				}
+			}
+			s2.Conns = conns
+			jobs = append(jobs, &job{s: s2, exp: expb, cfg: Cfg{Buf: 3, Procs: 2, SoftSec: 8}, kind: "unconnected", what: cut + " (in-port of a bundled component)", base: base})
+		}
+		for k, targets := range [][]string{{"B"}, {"G"}, {"W"}, {"B", "W"}} {
+			s2 := mkc()
+			s2.Run = spec.Run{Mode: []string{"runto", "runtoprocs"}[k%2], Targets: targets}
+			exp2 := evalRef(s2, nil)
+			if exp2.Err != "" {
+				c.Broken("reference cannot evaluate the component closure: " + exp2.Err)
+			}
+			jobs = append(jobs, &job{s: s2, exp: exp2, cfg: Cfg{Buf: 3, Procs: 2, SoftSec: 8}, kind: "runto", what: s2.Run.Mode + " " + strings.Join(targets, ",") + " (components; CommandToParams outside the closure)"})
 		}
 	}
 	// the last process (no out-ports, it becomes the driver) with an unconnected port
@@ -289,6 +342,9 @@ func c16(args []string) {
 				sort.Strings(ks)
 				ps = append(ps, fmt.Sprintf("%d task(s) executed before/despite the refusal, e.g. %s", len(ks), ks[0]))
 			}
+			if _, err := os.Stat(filepath.Join(res.Wd, "..", "ctp_marker.log")); err == nil {
+				ps = append(ps, "the command of the CommandToParams component was executed although the workflow has to be refused before any command")
+			}
 			if len(ps) > 0 {
 				c.Violation("unconnected-port-not-refused", "port "+j.what+" left unconnected: "+strings.Join(ps, "; "), map[string]interface{}{"spec": j.s, "port": j.what, "output_tail": tail(res.Output(), 500)})
 				return
@@ -311,6 +367,9 @@ func c16(args []string) {
 				if !j.exp.InRun[proc] {
 					ps = append(ps, mon.Problem{Sig: "command-outside-closure", Msg: "task " + k + " belongs to a process outside the upstream closure"})
 				}
+			}
+			if _, err := os.Stat(filepath.Join(res.Wd, "..", "ctp_marker.log")); err == nil && !j.exp.InRun["CP"] {
+				ps = append(ps, mon.Problem{Sig: "command-outside-closure", Msg: "the command of the CommandToParams component CP was executed although CP is outside the upstream closure"})
 			}
 			if len(ps) > 0 {
 				for _, sig := range sigSet(ps) {
